@@ -49,6 +49,10 @@
 (*                    different indexes do not exclude each other, and a   *)
 (*                    concurrent save that re-files the record in the      *)
 (*                    expiration index makes it claimable again            *)
+(*  "RefileGap"       a save re-files a record in the expiration beacons by  *)
+(*                    delete-then-add under separate lock acquisitions (and  *)
+(*                    every save does, the "expiry changed" flag is sticky): *)
+(*                    a walk in between does not meet the record            *)
 (*  "Resurrect"       in a swamp whose records are not persisted (body     *)
 (*                    kept on delete), patch-expired patches and saves a   *)
 (*                    record that was deleted after selection (re-insert), *)
@@ -135,19 +139,20 @@ Criteria(q, r) ==
 \* the value of the indexable leg the code uses at Visit, and the deviation that made it differ from the live value
 LegLive(q, k) == rec[k].grp \in q.f.G
 LegDropped(q, c) == q.kind = "sm" /\ cand[c] = {} /\ Has("EmptyCandidates")
-LegUsed(q, c, k) ==
-  IF LegDropped(q, c) THEN TRUE
-  ELSE IF Has("StaleCandidates") THEN k \in cand[c]
-  ELSE LegLive(q, k)
-LegDev(q, c) == IF LegDropped(q, c) THEN "EmptyCandidates" ELSE "StaleCandidates"
+\* A deviation is an ALTERNATIVE the as-built specification may take at a deviation point (the strict outcome stays
+\* possible), so that a tree in which some defects are repaired and others are not is still explained, and `used`
+\* names exactly the deviations whose alternative was needed.
+LegChoices(q, c, k) ==
+  {LegLive(q, k)} \cup (IF Has("StaleCandidates") THEN {k \in cand[c]} ELSE {}) \cup (IF LegDropped(q, c) THEN {TRUE} ELSE {})
+LegDev(q, c, lv) == IF LegDropped(q, c) /\ lv THEN "EmptyCandidates" ELSE "StaleCandidates"
 
 \* a dead record still filed in the expiration index (only arises with "Resurrect")
 Ghost(k) == ~rec[k].live /\ ix[k] # 0 /\ KeepBody
 
 \* what the code evaluates at Visit (equals Criteria when Dev = {})
-Judged(q, c, k) ==
+Judged(q, c, k, lv) ==
   LET r == rec[k]
-      filt == IF Indexed(q.f) THEN LegUsed(q, c, k) /\ Residual(q.f, r) ELSE Sat(q.f, r)
+      filt == IF Indexed(q.f) THEN lv /\ Residual(q.f, r) ELSE Sat(q.f, r)
   IN /\ r.live \/ Ghost(k)
      /\ CASE q.kind = "se" -> Expired(r)
           [] q.kind = "pe" -> Expired(r) /\ filt
@@ -163,16 +168,17 @@ SortedSeqs(S, v) ==
        IN UNION {{<<k>> \o s : s \in SortedSeqs(S \ {k}, v)} : k \in m}
 
 \* keys a walk over index x meets: filed there and not removed by a claim in progress
-Members(x) ==
+\* (local = the claim is index-local: it only sees what was removed from its own beacon and only takes that beacon's lock)
+Members(x, local) ==
   LET filed == IF x \in ExpIdx THEN {k \in Keys : ix[k] # 0} ELSE {k \in Keys : rec[k].live}
-  IN IF Has("IndexLocalClaim") THEN {k \in filed : x \notin held[k]} ELSE {k \in filed : held[k] = {}}
+  IN IF local THEN {k \in filed : x \notin held[k]} ELSE {k \in filed : held[k] = {}}
 
-WalkOrders(q) ==
+WalkOrders(q, local) ==
   LET x == IdxOf(q)
       v == [k \in Keys |-> LET a == IF x \in ExpIdx THEN ix[k] ELSE k IN IF DescOf(q) THEN 0 - a ELSE a]
-  IN SortedSeqs(Members(x), v)
+  IN SortedSeqs(Members(x, local), v)
 
-LocksOf(q) == IF Has("IndexLocalClaim") THEN {IdxOf(q)} ELSE Idx
+LocksOf(q, local) == IF local THEN {IdxOf(q)} ELSE Idx
 
 -----------------------------------------------------------------------------
 Init ==
@@ -191,7 +197,7 @@ ClaimersIdle == \A c \in Claimers : Quiet(c)
 
 Call(c, q) ==
   /\ c \in Claimers /\ pc[c] = "idle"
-  /\ req' = [req EXCEPT ![c] = q]
+  /\ req' = [req EXCEPT ![c] = [local |-> FALSE] @@ q]
   /\ pc' = [pc EXCEPT ![c] = IF q.kind = "se" THEN "lock" ELSE "pred"]
   /\ cand' = [cand EXCEPT ![c] = {}] /\ res' = [res EXCEPT ![c] = <<>>]
   /\ todo' = [todo EXCEPT ![c] = <<>>] /\ out' = [out EXCEPT ![c] = <<>>]
@@ -207,37 +213,44 @@ BuildPredicate(c) ==
 
 Lock(c) ==
   /\ c \in Claimers /\ pc[c] = "lock"
-  /\ \A x \in LocksOf(req[c]) : lock[x] = ""
-  /\ lock' = [x \in Idx |-> IF x \in LocksOf(req[c]) THEN c ELSE lock[x]]
-  /\ \E w \in WalkOrders(req[c]) : walk' = [walk EXCEPT ![c] = w]
+  /\ \E local \in (IF Has("IndexLocalClaim") THEN {FALSE, TRUE} ELSE {FALSE}) :
+       /\ \A x \in LocksOf(req[c], local) : lock[x] = ""
+       /\ lock' = [x \in Idx |-> IF x \in LocksOf(req[c], local) THEN c ELSE lock[x]]
+       /\ \E w \in WalkOrders(req[c], local) : walk' = [walk EXCEPT ![c] = w]
+       /\ req' = [req EXCEPT ![c].local = local]
+       /\ used' = IF \E x \in Idx : lock[x] # "" THEN used \cup {"IndexLocalClaim"} ELSE used
+  \* a walk over an expiration index does not meet a record whose save is between "taken out" and "put back"
+  /\ bad' = bad \cup (IF IdxOf(req[c]) \in ExpIdx
+                        THEN {<<"IndexOrder", c, req[i].k>> : i \in {j \in Interferers : pc[j] = "gap" /\ held[req[j].k] = {}}}
+                        ELSE {})
   /\ pc' = [pc EXCEPT ![c] = "walk"]
-  /\ used' = IF \E x \in Idx : lock[x] # "" THEN used \cup {"IndexLocalClaim"} ELSE used
-  /\ UNCHANGED <<mode, rec, ix, held, req, cand, res, todo, out, owner, alive, bad, nops>>
+  /\ UNCHANGED <<mode, rec, ix, held, cand, res, todo, out, owner, alive, nops>>
 
 Entry(k, iv) == [k |-> k, exp |-> rec[k].exp, grp |-> rec[k].grp, st |-> rec[k].st, iv |-> iv]
 
 Visit(c) ==
   /\ c \in Claimers /\ pc[c] = "walk" /\ walk[c] # <<>>
-  /\ LET k == Head(walk[c])
+  /\ \E lv \in (IF Indexed(req[c].f) /\ req[c].kind # "se" THEN LegChoices(req[c], c, Head(walk[c])) ELSE {TRUE}) :
+     LET k == Head(walk[c])
          q == req[c]
          x == IdxOf(q)
          room == Len(res[c]) < EffN(q)
          strict == Criteria(q, rec[k])
-         judged == Judged(q, c, k)
+         judged == Judged(q, c, k, lv)
          take == judged /\ room
          iv == IF x \in ExpIdx THEN ix[k] ELSE k
      IN
      /\ walk' = [walk EXCEPT ![c] = Tail(walk[c])]
      /\ IF take
           THEN /\ res' = [res EXCEPT ![c] = Append(res[c], Entry(k, iv))]
-               /\ held' = [held EXCEPT ![k] = IF Has("IndexLocalClaim") THEN held[k] \cup {x} ELSE Idx]
+               /\ held' = [held EXCEPT ![k] = IF q.local THEN held[k] \cup {x} ELSE Idx]
                /\ owner' = [owner EXCEPT ![k] = c]
                /\ bad' = bad \cup (IF strict THEN {} ELSE {<<"MatchedAtClaim", c, k>>})
                              \cup (IF owner[k] # "" /\ owner[k] # c THEN {<<"Disjoint", c, k>>} ELSE {})
                              \cup (IF rec[k].live THEN {} ELSE {<<"NoResurrection", c, k>>})
           ELSE UNCHANGED <<res, held, owner, bad>>
      /\ used' = used
-                \cup (IF room /\ rec[k].live /\ judged # strict THEN {LegDev(q, c)} ELSE {})
+                \cup (IF room /\ rec[k].live /\ judged # strict THEN {LegDev(q, c, lv)} ELSE {})
                 \cup (IF take /\ held[k] # {} THEN {"IndexLocalClaim"} ELSE {})
                 \cup (IF room /\ judged /\ ~rec[k].live THEN {"Resurrect"} ELSE {})
   /\ UNCHANGED <<mode, rec, ix, lock, pc, req, cand, todo, out, alive, nops>>
@@ -272,14 +285,15 @@ DelStep(c) ==
 \* patch-expired: applyPatchExpiredOne for every selected record
 PatchStep(c) ==
   /\ c \in Claimers /\ pc[c] = "fin" /\ req[c].kind = "pe" /\ todo[c] # <<>>
-  /\ LET e == Head(todo[c])
+  /\ \E rz \in (IF ~rec[Head(todo[c]).k].live /\ KeepBody THEN {TRUE, FALSE} ELSE {FALSE}) :
+     LET e == Head(todo[c])
          k == e.k
          q == req[c]
          r == rec[k]
          condOK == q.cond = "" \/ r.st = q.cond
          newexp == IF q.lease # 0 THEN q.lease ELSE r.exp
          patched == [live |-> TRUE, exp |-> newexp, grp |-> r.grp, st |-> q.newst]
-         resurrects == ~r.live /\ KeepBody
+         resurrects == rz
          \* before its first patch PatchExpired removes the selected records from the descending expiration beacon too
          sel == {res[c][i].k : i \in DOMAIN res[c]}
          Mirrored == [j \in Keys |-> IF todo[c] = res[c] /\ j \in sel /\ "expA" \in held[j] THEN held[j] \cup {"expD"} ELSE held[j]]
@@ -308,9 +322,11 @@ PatchStep(c) ==
 CReindex(c) ==
   /\ c \in Claimers /\ pc[c] = "fin" /\ req[c].kind = "pe" /\ todo[c] = <<>>
   /\ lock["expA"] = ""
-  /\ LET sel == {res[c][i].k : i \in DOMAIN res[c]}
-         ghosts == {k \in sel : ~rec[k].live /\ KeepBody /\ rec[k].exp # 0}
-     IN /\ ix' = [k \in Keys |-> IF k \in sel THEN (IF rec[k].live \/ k \in ghosts THEN rec[k].exp ELSE 0) ELSE ix[k]]
+  /\ \E gz \in (IF KeepBody THEN {TRUE, FALSE} ELSE {FALSE}) :
+     LET sel == {res[c][i].k : i \in DOMAIN res[c]}
+         ghosts == IF gz THEN {k \in sel : ~rec[k].live /\ rec[k].exp # 0} ELSE {}
+     IN /\ (gz => ghosts # {})
+        /\ ix' = [k \in Keys |-> IF k \in sel THEN (IF rec[k].live \/ k \in ghosts THEN rec[k].exp ELSE 0) ELSE ix[k]]
         /\ held' = [k \in Keys |-> IF k \in sel THEN held[k] \ ExpIdx ELSE held[k]]
         /\ used' = IF ghosts # {} THEN used \cup {"Resurrect"} ELSE used
   /\ pc' = [pc EXCEPT ![c] = "ret"]
@@ -355,39 +371,44 @@ Apply(i) ==
                  ELSE /\ out' = [out EXCEPT ![i] = <<"NOT_FOUND">>]
                       /\ UNCHANGED <<rec, ix, held>>
             /\ pc' = [pc EXCEPT ![i] = "ret"]
-            /\ UNCHANGED <<owner, alive>>
-       [] o.kind = "put" ->
-            /\ r.live \/ MayCreate(k)
-            /\ rec' = [rec EXCEPT ![k] = [live |-> TRUE, exp |-> o.e, grp |-> o.g, st |-> o.s]]
-            /\ out' = [out EXCEPT ![i] = <<IF r.live THEN "PATCHED" ELSE "CREATED">>]
-            /\ owner' = [owner EXCEPT ![k] = IF r.live THEN owner[k] ELSE ""]
-            /\ alive' = alive \cup {k}
-            \* a new record is absent from the expiration index until it is filed; a changed expiry is re-filed
-            /\ ix' = [ix EXCEPT ![k] = IF r.live THEN ix[k] ELSE 0]
-            /\ held' = [held EXCEPT ![k] = IF r.live THEN held[k] ELSE {}]
-            /\ pc' = [pc EXCEPT ![i] = IF (r.live /\ (o.e # r.exp \/ Refiles(k))) \/ (~r.live /\ o.e # 0) THEN "rx" ELSE "ret"]
-       [] o.kind = "patch" ->
-            /\ IF r.live
-                 THEN /\ rec' = [rec EXCEPT ![k] = [live |-> TRUE,
-                                                     exp |-> IF o.e = -1 THEN r.exp ELSE o.e,
-                                                     grp |-> IF o.g = "" THEN r.grp ELSE o.g,
-                                                     st  |-> IF o.s = "" THEN r.st ELSE o.s]]
-                      /\ out' = [out EXCEPT ![i] = <<"PATCHED">>]
-                      /\ pc' = [pc EXCEPT ![i] = IF (o.e # -1 /\ o.e # r.exp) \/ Refiles(k) THEN "rx" ELSE "ret"]
-                 ELSE /\ out' = [out EXCEPT ![i] = <<"KEY_NOT_FOUND">>]
-                      /\ pc' = [pc EXCEPT ![i] = "ret"]
-                      /\ UNCHANGED rec
-            /\ UNCHANGED <<ix, held, owner, alive>>
-  /\ UNCHANGED <<mode, lock, req, cand, walk, res, todo, bad, used, nops>>
+            /\ UNCHANGED <<owner, alive, used>>
+       [] o.kind \in {"put", "patch"} ->
+            LET creates == o.kind = "put" /\ ~r.live
+                nr == IF o.kind = "put" THEN [live |-> TRUE, exp |-> o.e, grp |-> o.g, st |-> o.s]
+                      ELSE [live |-> TRUE, exp |-> IF o.e = -1 THEN r.exp ELSE o.e,
+                            grp |-> IF o.g = "" THEN r.grp ELSE o.g, st |-> IF o.s = "" THEN r.st ELSE o.s]
+            IN
+            IF ~r.live /\ o.kind = "patch"
+              THEN /\ out' = [out EXCEPT ![i] = <<"KEY_NOT_FOUND">>]
+                   /\ pc' = [pc EXCEPT ![i] = "ret"]
+                   /\ UNCHANGED <<rec, ix, held, owner, alive, used>>
+              ELSE
+                /\ r.live \/ MayCreate(k)
+                /\ rec' = [rec EXCEPT ![k] = nr]
+                /\ out' = [out EXCEPT ![i] = <<IF r.live THEN "PATCHED" ELSE "CREATED">>]
+                /\ owner' = [owner EXCEPT ![k] = IF r.live THEN owner[k] ELSE ""]
+                /\ alive' = alive \cup {k}
+                /\ held' = [held EXCEPT ![k] = IF r.live THEN held[k] ELSE {}]
+                \* a new record is absent from the expiration index until it is filed; a changed expiry is re-filed.
+                \* "RefileGap": as built every save of a record with an expiry takes it OUT of the expiration beacons
+                \* and puts it back under separate lock acquisitions (pc "gap": the record is in no expiration index)
+                /\ \E gap \in (IF Has("RefileGap") /\ r.live /\ ix[k] # 0 THEN {FALSE, TRUE} ELSE {FALSE}) :
+                     /\ ix' = [ix EXCEPT ![k] = IF creates \/ gap THEN 0 ELSE ix[k]]
+                     /\ used' = IF gap THEN used \cup {"RefileGap"} ELSE used
+                     /\ pc' = [pc EXCEPT ![i] = IF gap THEN "gap"
+                                                 ELSE IF (r.live /\ (nr.exp # r.exp \/ Refiles(k))) \/ (creates /\ o.e # 0) THEN "rx" ELSE "ret"]
+  /\ UNCHANGED <<mode, lock, req, cand, walk, res, todo, bad, nops>>
 
 \* SaveFunction's IsExpirationTimeChanged / new-record branch: delete + add + sort under the expiration beacon's lock
 IReindex(i) ==
-  /\ i \in Interferers /\ pc[i] = "rx"
+  /\ i \in Interferers /\ pc[i] \in {"rx", "gap"}
   /\ lock["expA"] = "" /\ lock["expD"] = ""
-  /\ LET k == req[i].k IN
+  /\ LET k == req[i].k
+         can == rec[k].live /\ rec[k].exp # 0 /\ Has("IndexLocalClaim") /\ held[k] \cap ExpIdx # {}
+     IN \E un \in (IF can THEN {TRUE, FALSE} ELSE {FALSE}) :
        /\ ix' = [ix EXCEPT ![k] = IF rec[k].live THEN rec[k].exp ELSE ix[k]]
-       /\ held' = [held EXCEPT ![k] = IF rec[k].live /\ rec[k].exp # 0 /\ Has("IndexLocalClaim") THEN held[k] \ ExpIdx ELSE held[k]]
-       /\ used' = IF rec[k].live /\ rec[k].exp # 0 /\ Has("IndexLocalClaim") /\ held[k] \cap ExpIdx # {} THEN used \cup {"IndexLocalClaim"} ELSE used
+       /\ held' = [held EXCEPT ![k] = IF un THEN held[k] \ ExpIdx ELSE held[k]]
+       /\ used' = IF un THEN used \cup {"IndexLocalClaim"} ELSE used
   /\ pc' = [pc EXCEPT ![i] = "ret"]
   /\ UNCHANGED <<mode, rec, lock, req, cand, walk, res, todo, out, owner, alive, bad, nops>>
 
@@ -416,7 +437,8 @@ NoResurrection == Broken("NoResurrection") = {}
 AtMostN == \A c \in Claimers : req[c].kind # "" => Len(res[c]) <= EffN(req[c])
 \* in index order
 IndexOrder ==
-  \A c \in Claimers : req[c].kind # "" =>
+  /\ Broken("IndexOrder") = {}     \* no walk missed a record that belongs to the index
+  /\ \A c \in Claimers : req[c].kind # "" =>
     \A i, j \in DOMAIN res[c] : i < j =>
       IF DescOf(req[c]) THEN res[c][i].iv >= res[c][j].iv ELSE res[c][i].iv <= res[c][j].iv
 \* the selection lock is exclusive
